@@ -73,6 +73,16 @@ PROPS = {
         "not_covered": ["the easter-egg path of get_citations (plain_text == 'eyecite' returns a canned citation with span (0, 99))",
                         "markup mode (offsets w.r.t. the cleaned text) is covered under C19's offsets_valid clause"],
     },
+    "C03": {
+        "contracts": ["a_common", "c18_helpers", "helpers", "filter"],
+        "functions": ["helpers.overlapping_citations", "models.CitationBase.span", "models.CitationBase.full_span", "helpers.filter_citations"],
+        "assumptions": ["every element of the list is a well-formed citation object (cit_wf)",
+                        "E-DICT-DEDUPE: list({c.span(): c for c in cs}.values()) keeps for every span the last element with that span; spans of the result are pairwise distinct",
+                        "E-SORTED: sorted() is a stable permutation with non-decreasing keys",
+                        "keeps_non_references is proved with the carve-out 'no later element of the list has the identical span' (known finding C03-2)"],
+        "not_covered": ["spans_disjoint (no two returned spans overlap) needs the disjointness of token-derived spans (C12 + C02's extension bound) and is checked by the bounded stand-in only",
+                        "idempotence of filter_citations is checked by the bounded stand-in only"],
+    },
     "C12": {
         "contracts": ["a_common", "helpers", "tokenizers"],
         "functions": ["models.Token.merge", "tokenizers.token_is_from_nominative_reporter", "tokenizers.Tokenizer.tokenize"],
